@@ -5,7 +5,7 @@ from bounded import typegen as G
 from bounded.typegen import Ty
 from bounded.C11_observe import same_value, ObserveError, short
 from bounded.C11_core import Failure, exc_text, MODES
-from bounded.C12_core import node_at, full_value, spec_full_from_pair
+from bounded.C12_core import node_at, full_value, spec_full_from_pair, value_wclass  # noqa: F401
 from specs.C11_micheline_reader import read_value, SpecReject
 from specs import entrypoints as EP
 
@@ -133,26 +133,3 @@ def call_failures(pty: Ty, ename: str, path: str, a, only=None):
         except SpecReject as e:
             out.append(Failure(f'to_from[{mode}]::ensures.roundtrip', f'{short(r)} is not a call of a Tezos entrypoint of this type: {e}'))
     return _flt(out, only)
-
-
-def value_wclass(pty: Ty, w, f: Failure = None) -> str:
-    """why/where a parameter value (or call) fails: annotation placement along the value's path."""
-    e = pty.expr()
-    vp = EP.value_path(e, G.neutral(pty, w))
-    leaf = node_at(pty, vp)
-    names = {n: p for n, p, _ in EP.annotated_nodes(e, include_root=False)}
-    parts = []
-    if pty.prim != 'or':
-        parts.append('non-union-root')
-    if pty.field is None and 'default' in names and 'root' in names:
-        parts.append('root-name-collision(%default+%root-branches)')
-    if vp:
-        parts.append('annotated-leaf' if leaf.field is not None else 'unannotated-leaf')
-        inner = [node_at(pty, vp[:i]) for i in range(1, len(vp))]
-        if any(t.field is not None for t in inner):
-            parts.append('annotated-inner-or-above')
-    if pty.field is not None:
-        parts.append('annotated-root')
-    if leaf.tname is not None:
-        parts.append('type-annotated-leaf')
-    return '+'.join(parts) or 'plain'
